@@ -427,7 +427,7 @@ impl<B> Flow<B, Await100> {
     }
 
     /// Proceed to the next state.
-    pub fn proceed(self) -> Result<Await100Result<B>, Error> {
+    pub fn proceed(mut self) -> Result<Await100Result<B>, Error> {
         // We can always proceed out of Await100
 
         if self.inner.should_send_body {
@@ -435,6 +435,16 @@ impl<B> Flow<B, Await100> {
             flow.inner.call.analyze_request()?;
             Ok(Await100Result::SendBody(flow))
         } else {
+            // The server refused the body. Convert the call to receive the response
+            // the server sent instead, without ever sending the body.
+            let call_body = match self.inner.call {
+                CallHolder::WithBody(v) => v,
+                _ => unreachable!(),
+            };
+
+            let call = CallHolder::RecvResponse(call_body.into_receive_skip_body());
+            self.inner.call = call;
+
             Ok(Await100Result::RecvResponse(Flow::wrap(self.inner)))
         }
     }
